@@ -302,6 +302,13 @@ fn oracle_batchings(kind: &str, min: usize, max: usize, run: Runner, seq: &[Resp
             } else {
                 rec.check(false, "w-values-depend-on-batching(min<max)", &format!("min={min} max={max} seq={seq:?} batching={bs:?} got={all:?} other={ref_all:?}"));
             }
+        } else if kind == "w" {
+            // same multiset: the output stream keeps the input's `TotalOrder` type, so the emitted
+            // *sequence* should not depend on the batching either (per key it never does: checked
+            // tick by tick in `oracle_quorum`; what can differ is the interleaving of different keys)
+            let flat = |o: &[TickOut]| -> Vec<(u32, u32)> { o.iter().flat_map(|t| t.q.iter().copied()).collect() };
+            let (a, b) = (flat(&outs), flat(reference));
+            rec.check(a == b, "w-cross-key-output-order-depends-on-batching", &format!("min={min} max={max} seq={seq:?} batching={bs:?} got={a:?} other={b:?}"));
         }
     }
 }
